@@ -294,3 +294,124 @@ func ruleSweeper(c *Check, rTable, rPrivate, rEffect, rCursor string) {
 		c.Ok(rCursor, fnSweepTxn+"/cursor-updated", "every completed slice stores (last, limitReached) = ls.Cursor() unconditionally", pos)
 	}
 }
+
+// C13-R6 RESUME-EXACT: a slice of the sweep resumes where the previous one
+// stopped. LimitScanner.Scan repositions with SetRange on the saved (key,
+// value) and steps past that entry exactly when the entry it landed on is the
+// saved one (same key and same value). Stepping on a weaker test skips an
+// entry that was never examined (an expired marker survives); never stepping
+// re-examines the same entry forever with a one-record limit.
+func ruleLimitScannerResume(c *Check, rule string) {
+	name := "lmdbenv/limitscanner.(*LimitScanner).Scan"
+	fn, paths := c.walkFn(rule, name, WalkConfig{})
+	if paths == nil {
+		return
+	}
+	pos := c.P.Pos(fn.Pos())
+	s := param(fn, 0)
+	setRange, ok1 := c.constValue2("github.com/PowerDNS/lmdb-go/lmdb", "SetRange")
+	next, ok2 := c.constValue2("github.com/PowerDNS/lmdb-go/lmdb", "Next")
+	if !ok1 || !ok2 {
+		c.Undecided(rule, name, "lmdb.SetRange / lmdb.Next not found", pos)
+		return
+	}
+	lastKey, lastVal := s+".opt.Last.key", s+".opt.Last.val"
+	other := func(p *Path, side string, want string) string {
+		for _, cd := range p.Conds() {
+			a := cd.Atom
+			if a.Kind != "cmp" || a.Dom != "bytes" {
+				continue
+			}
+			switch {
+			case a.A == side && strings.Contains(a.B, want):
+				return a.B
+			case a.B == side && strings.Contains(a.A, want):
+				return a.A
+			}
+		}
+		return ""
+	}
+	nRes, nAdv, nStay, bad := 0, 0, 0, 0
+	for i := range paths {
+		p := &paths[i]
+		sets := callsOf(p, "(*lmdbscan.Scanner).Set")
+		first, f1 := boolCond(p, s+".count == const:0", -1)
+		_ = first
+		_ = f1
+		cnt := p.State.RelOf("int", s+".count", "const:0")
+		var zero, zf bool
+		for _, cd := range p.Conds() {
+			if cd.Atom.Kind == "bool" && strings.Contains(cd.Atom.A, "IsZero("+s+".opt.Last)") {
+				zero, zf = cd.Truth, true
+			}
+		}
+		resume := cnt == EQ && zf && !zero
+		lim, lf := boolCond(p, s+".limitReached", -1)
+		if lf && lim {
+			continue
+		}
+		if !resume {
+			if len(sets) != 0 {
+				bad++
+				c.Bad(rule, name+"/reposition-only-at-start", "the scanner is repositioned on a call that is not the first of a resumed slice", c.pathPos(p), describe(c, p))
+			}
+			continue
+		}
+		nRes++
+		if len(sets) == 0 || sets[0].Args[1] != lastKey || sets[0].Args[2] != lastVal || sets[0].Args[3] != "const:"+setRange {
+			bad++
+			c.Bad(rule, name+"/reposition", "a resumed slice does not start with Set(last key, last value, SetRange)", c.pathPos(p), describe(c, p))
+			continue
+		}
+		adv := false
+		for _, e := range sets[1:] {
+			if e.Args[1] == "nil" && e.Args[2] == "nil" && e.Args[3] == "const:"+next {
+				adv = true
+			} else {
+				bad++
+				c.Bad(rule, name+"/reposition", "unexpected second repositioning in a resumed slice", evPos(c, e), nil)
+			}
+		}
+		ko, vo := other(p, lastKey, "Key("), other(p, lastVal, "Val(")
+		keyEq := ko != "" && p.State.RelOf("bytes", ko, lastKey) == EQ
+		valEq := vo != "" && p.State.RelOf("bytes", vo, lastVal) == EQ
+		keyNe := ko != "" && p.State.RelOf("bytes", ko, lastKey)&EQ == 0
+		valNe := vo != "" && p.State.RelOf("bytes", vo, lastVal)&EQ == 0
+		switch {
+		case adv && keyEq && valEq:
+			nAdv++
+		case !adv && (keyNe || valNe):
+			nStay++
+		case adv:
+			bad++
+			c.Bad(rule, name+"/advance-only-past-saved-entry", "a resumed slice steps past the entry it landed on without having established that it is the saved one (same key and same value): when the saved entry is gone, the next unexamined entry is skipped and an expired marker in it survives", c.pathPos(p), describe(c, p))
+		default:
+			bad++
+			c.Bad(rule, name+"/advance-past-saved-entry", "a resumed slice that landed on the saved entry does not step past it", c.pathPos(p), describe(c, p))
+		}
+	}
+	if bad == 0 {
+		c.Ok(rule, name+"/resume-exact", fmt.Sprintf("%d resumed path classes: Set(last.key, last.val, SetRange), then Next exactly when the current key and value both equal the saved ones (%d advancing, %d staying)", nRes, nAdv, nStay), pos)
+	}
+	c.Floor(rule, nAdv, 1, "advancing resume paths")
+	c.Floor(rule, nStay, 1, "non-advancing resume paths")
+	// the saved cursor is the scanner's current key and value
+	cn := "lmdbenv/limitscanner.(*LimitScanner).Cursor"
+	cf, cps := c.walkFn(rule, cn, WalkConfig{})
+	if cps != nil {
+		okc := len(cps) > 0
+		for i := range cps {
+			p := &cps[i]
+			if len(p.Rets) < 2 {
+				okc = false
+				continue
+			}
+			k, f1 := litField(p.Rets[0], "key")
+			v, f2 := litField(p.Rets[0], "val")
+			if !f1 || !f2 || !strings.Contains(k, "Key(") || !strings.Contains(v, "Val(") || p.Rets[1] != param(cf, 0)+".limitReached" {
+				okc = false
+			}
+		}
+		c.Expect(okc, rule, cn, "the saved cursor is {current key, current value} with the limit flag", "Cursor() does not save the scanner's current key and value", c.P.Pos(cf.Pos()))
+	}
+}
